@@ -153,10 +153,10 @@ class ParserTotal(BoundedCheck):
                 import re as _re
                 sig = 'c13.statement-dropped'
                 lhs_without_term = any('=' in st and not _re.search(r'[A-Za-z_]', _re.sub(r'`[^`]*`|\{[^}]*\}|<[^>]*>|[A-Za-z_][\w.]*\s*(?=\()', '', st.split('=', 1)[0])) for st in s.split('\n'))
-                if '```' in s and want > got:
-                    sig += ':fence'
-                elif want > got and lhs_without_term:
+                if want > got and lhs_without_term:
                     sig += ':no-term-on-left-hand-side'
+                elif '```' in s and want > got:
+                    sig += ':fence'
                 elif want > got and set(_re.findall(r'([A-Za-z_]\w*)\s*\(', s)) & set(_re.findall(r'([A-Za-z_]\w*)\b(?!\s*\()', s)):
                     sig += ':variable-function-collision'
                 out.append(Violation('no non-blank, non-comment statement is silently discarded: each contributes exactly one equation or verbatim block',
